@@ -116,12 +116,13 @@ theorem rotateSelf_perm (l : List Bytes) (a b : Bool) : (rotateSelf l a b).Perm 
         rw [hsplit]
 
 /-- LMOVE k k on a live list: the reply is the moved element and the key holds the rotation
-    (with the repaired single-element behaviour, quirk off) -/
+    (a one-element list is left exactly as it was) -/
 theorem lmove_self_rotates (c : Ctx) (db : Db) (k : Bytes) (e : Entry) (l : List Bytes) (a b : Bool)
     (hq : c.q.lmoveSelfSingleLoses = false)
     (hl : listOf c db k = .ok (some (e, l))) (hne : l ≠ []) :
     ∃ x, (cmdLMove c db k k a b).reply = .bulk x ∧
-         (cmdLMove c db k k a b).db = upd c db k e (.list (rotateSelf l a b)) := by
+         (cmdLMove c db k k a b).db =
+           (if (if a then l.drop 1 else l.dropLast).isEmpty then db else upd c db k e (.list (rotateSelf l a b))) := by
   have hx : ∃ x, (if a then l.head? else l.getLast?) = some x := by
     cases l with
     | nil => exact absurd rfl hne
@@ -132,9 +133,15 @@ theorem lmove_self_rotates (c : Ctx) (db : Db) (k : Bytes) (e : Entry) (l : List
   obtain ⟨x, hx⟩ := hx
   refine ⟨x, ?_, ?_⟩
   · unfold cmdLMove
-    simp [hl, hx, hq]
+    simp only [hl, hx, hq, beq_self_eq_true, ↓reduceIte, Bool.and_false, Bool.false_eq_true]
+    split_ifs <;> rfl
   · unfold cmdLMove rotateSelf
-    simp [hl, hx, hq]
+    simp only [hl, hx, hq, beq_self_eq_true, ↓reduceIte, Bool.and_false, Bool.false_eq_true]
+    split_ifs <;> rfl
+
+/-- a one-element list rotated onto itself is the same list: nothing to change -/
+theorem rotateSelf_single (x : Bytes) (a b : Bool) : rotateSelf [x] a b = [x] := by
+  cases a <;> cases b <;> simp [rotateSelf]
 
 /-- the one-element witness of D09 on the model of the unrepaired code: the element is lost -/
 theorem lmove_self_single_witness :
